@@ -55,6 +55,9 @@ def check(tier, seed, replay=None):
             hs = hs[:1200]
         # corpus K (the linearization families A-F: scales, divisions, nested abs / min / max, logic) over enumerable domains
         ks, kmeta = lin.gen_all("quick", seed, per_family_quick=(250 if tier == "quick" else 6000))
+        # (the regression models that are refused on purpose - non-linear or undefined operands, API-built
+        # models with undeclared variables - are inputs of C08, not programs with an answer)
+        ks = [c for c in ks if not str(c.get("id", "")).startswith(("R_exact_", "R_api_"))]
         ks = [k_ for k_ in (enumerable(c) for c in ks) if k_]
         for f, m in kmeta.items():
             meta["K:" + f] = m
